@@ -107,8 +107,11 @@ impl BaseElement {
         let s_lo = s as u64;
         let z = (s_hi << 32) - s_hi;
         let (res, over) = s_lo.overflowing_add(z);
+        let res = res.wrapping_add(0u32.wrapping_sub(over as u32) as u64);
 
-        BaseElement::from_mont(res.wrapping_add(0u32.wrapping_sub(over as u32) as u64))
+        // the result is in [0, 2^64) at this point; bring it into the canonical [0, M) range
+        let (reduced, borrow) = res.overflowing_sub(M);
+        BaseElement::from_mont(if borrow { res } else { reduced })
     }
 }
 
@@ -129,9 +132,9 @@ impl FieldElement for BaseElement {
 
     #[inline]
     fn double(self) -> Self {
-        let ret = (self.0 as u128) << 1;
-        let (result, over) = (ret as u64, (ret >> 64) as u64);
-        Self(result.wrapping_sub(M * over))
+        // internal values are always kept in the [0, M) range, which a shift alone does not
+        // guarantee (values in [M/2, 2^63) do not overflow 64 bits but exceed M when doubled)
+        self + self
     }
 
     #[inline]
